@@ -1,0 +1,20 @@
+//go:build !verif
+
+package storage
+
+// Verification hooks. With the `verif` build tag off every hook is an empty
+// function that the compiler inlines away; see verif_on.go for their meaning.
+
+func verifIsFull(*btreeNode) (bool, bool)       { return false, false }
+func verifStoreCreated(*fileStore)              {}
+func verifTickerCreated(*fileStore)             {}
+func verifFlusherStart(*fileStore)              {}
+func verifTickDone(*fileStore, error)           {}
+func verifPoint(*fileStore, string)             {}
+func verifPageWrite(*fileStore, uint64, []byte) {}
+func verifHeaderWrite(*fileStore, []byte)       {}
+func verifFetch(*fileStore, uint64)             {}
+func verifMarkDirty(*btreeNode, uint64)         {}
+func verifWalWrite(*wal, []byte)                {}
+func verifWalSync(*wal)                         {}
+func verifWalFlushEnd(*wal, int)                {}
